@@ -162,6 +162,9 @@ func getGrafanaNetAddr(addr string) (string, string, string) {
 // NewGrafanaNet creates a special route that writes to a grafana.net datastore
 // We will automatically run the route and the destination
 func NewGrafanaNet(key string, matcher matcher.Matcher, cfg GrafanaNetConfig) (Route, error) {
+	if cfg.Concurrency < 1 || cfg.BufSize < 0 || cfg.FlushMaxNum < 1 || cfg.FlushMaxWait <= 0 {
+		return nil, errors.New("NewGrafanaNet: concurrency, flushMaxNum and flushMaxWait must be > 0 and bufSize must be >= 0")
+	}
 	schemas, err := getSchemas(cfg.SchemasFile)
 	if err != nil {
 		return nil, err
